@@ -218,7 +218,11 @@ class State():
 
 
     def is_set_release_signal_from_local(self):
-        return not self.association.state_is_active
+        #: A stop requested while the connection was being set up may have
+        #: been overwritten by the transition to Open: the request itself is 
+        #: checked as well.
+        return (not self.association.state_is_active or 
+                self.association.stop_requested)
 
 
     def is_set_release_signal_from_peer(self):
